@@ -10,8 +10,9 @@ PROPS = ["C03", "C06", "C07"]
 
 # per property and tier: list of (cfg, mode)
 CONFIGS = {
-    "C01": {"quick": [("ControllerMC_share.cfg", "edges"), ("ControllerMC_fault.cfg", "edges"), ("ControllerMC_crash.cfg", "edges")],
-            "thorough": [("ControllerMC_share.cfg", "edges"), ("ControllerMC_fault.cfg", "edges"), ("ControllerMC_crash.cfg", "edges"),
+    "C01": {"quick": [("ControllerMC_share.cfg", "edges"), ("ControllerMC_fault.cfg", "edges"), ("ControllerMC_crashfault.cfg", "edges")],
+            "thorough": [("ControllerMC_share.cfg", "edges"), ("ControllerMC_fault.cfg", "edges"), ("ControllerMC_crashfault.cfg", "edges"),
+                         ("ControllerMC_crash.cfg", "edges"),
                          ("ControllerMC_share_sim.cfg", "sim")]},
     "C02": {"quick": [("ControllerMC_req.cfg", "edges"), ("ControllerMC_dual.cfg", "edges"), ("ControllerMC_pinmove.cfg", "edges"),
                       ("ControllerMC_dualreq.cfg", "edges")],
@@ -21,9 +22,10 @@ CONFIGS = {
                       ("ControllerMC_crash3.cfg", "edges")],
             "thorough": [("ControllerMC_stable.cfg", "edges"), ("ControllerMC_stable_il.cfg", "edges"), ("ControllerMC_stablefault.cfg", "edges"),
                          ("ControllerMC_stable_sim.cfg", "sim")]},
-    "C06": {"quick": [("ControllerMC_crash.cfg", "edges"), ("ControllerMC_crash3.cfg", "edges"), ("ControllerMC_fault.cfg", "edges")],
+    "C06": {"quick": [("ControllerMC_crash.cfg", "edges"), ("ControllerMC_crash3.cfg", "edges"), ("ControllerMC_fault.cfg", "edges"),
+                      ("ControllerMC_crashfault.cfg", "edges")],
             "thorough": [("ControllerMC_crash.cfg", "edges"), ("ControllerMC_crash3.cfg", "edges"), ("ControllerMC_fault.cfg", "edges"),
-                         ("ControllerMC_stale.cfg", "edges"),
+                         ("ControllerMC_crashfault.cfg", "edges"), ("ControllerMC_stale.cfg", "edges"),
                          ("ControllerMC_crash_sim.cfg", "sim"), ("ControllerMC_stale_sim.cfg", "sim")]},
     "C07": {"quick": [("ControllerMC_starve.cfg", "edges"), ("ControllerMC_fault.cfg", "edges")],
             "thorough": [("ControllerMC_starve.cfg", "edges"), ("ControllerMC_fault.cfg", "edges"), ("ControllerMC_starve_sim.cfg", "sim")]},
